@@ -270,6 +270,165 @@ theorem copy_spec (k : Kind) (hk : k.inPlace = false) : ∀ n, CopySpec k n
     | str f s => exact copy_scalar (by simpa [denote] using hd) hp
     | big f s => exact copy_scalar (by simpa [denote] using hd) hp
 
+/-! ## copying variants, any options: the result is fresh whatever is left out -/
+
+def FreshSpec (k : Kind) (n : Nat) : Prop :=
+  ∀ (opt : Opt) (H : Heap) (r : Ref) (t : T), denote n H r = some t → t.pure k.src = true →
+    ∃ H' r', conv k n opt H r = some (H', r') ∧ Ext H H' ∧
+      ∃ S, owns n H' r' = some S ∧ S.Nodup ∧ ∀ a, a ∈ S → H.length ≤ a
+
+theorem forEach_fresh {k : Kind} {n : Nat} (ih : FreshSpec k n) (opt : Opt) :
+    ∀ (xs : List Ref) (H : Heap) (ts : List T), mapOpt (denote n H) xs = some ts →
+      T.pureList k.src ts = true →
+      ∃ H' ys, forEach (conv k n opt) H xs = some (H', ys) ∧ Ext H H' ∧
+        ∃ Ss, mapOpt (owns n H') ys = some Ss ∧ Ss.flatten.Nodup ∧ ∀ a, a ∈ Ss.flatten → H.length ≤ a
+  | [], H, ts, _, _ => ⟨H, [], rfl, Ext.refl H, [], rfl, by simp, by simp⟩
+  | x :: xs, H, ts, hm, hp => by
+    obtain ⟨t, ts', hx, hr, rfl⟩ := mapOpt_cons_some.1 hm
+    simp only [T.pureList, Bool.and_eq_true] at hp
+    obtain ⟨H1, y, hc1, e1, S1, ho1, hn1, hg1⟩ := ih opt H x t hx hp.1
+    have hr1 : mapOpt (denote n H1) xs = some ts' := mapOpt_mono (fun x y _ h => denote_ext e1 n x y h) hr
+    obtain ⟨H2, ys, hc2, e2, Ss, ho2, hn2, hg2⟩ := forEach_fresh ih opt xs H1 ts' hr1 hp.2
+    refine ⟨H2, y :: ys, by simp [forEach, hc1, hc2], e1.trans e2, S1 :: Ss, ?_, ?_, ?_⟩
+    · exact mapOpt_cons_some.2 ⟨_, _, owns_ext e2 n y _ ho1, ho2, rfl⟩
+    · rw [List.flatten_cons, List.nodup_append]
+      refine ⟨hn1, hn2, fun a ha b hb hab => ?_⟩
+      have h1 : a < H1.length := owns_lt n H1 y S1 ho1 a ha
+      have h2 : H1.length ≤ b := hg2 b hb
+      subst hab
+      exact Nat.lt_irrefl _ (Nat.lt_of_lt_of_le h1 h2)
+    · intro a ha
+      rw [List.flatten_cons, List.mem_append] at ha
+      rcases ha with ha | ha
+      · exact hg1 a ha
+      · exact Nat.le_trans e1.len (hg2 a ha)
+
+theorem forEachKv_fresh {k : Kind} {n : Nat} (ih : FreshSpec k n) (opt opt' : Opt)
+    (om : Heap → Ref → Bool) :
+    ∀ (kvs : List (String × Ref)) (H : Heap) (ts : List (String × T)),
+      mapOptKv (denote n H) kvs = some ts → T.pureKvs k.src ts = true →
+      ∃ H' ys, forEachKv (conv k n opt') om H kvs = some (H', ys) ∧ Ext H H' ∧
+        ∃ Ss, mapOpt (owns n H') (ys.map (·.2)) = some Ss ∧ Ss.flatten.Nodup ∧
+          ∀ a, a ∈ Ss.flatten → H.length ≤ a
+  | [], H, ts, _, _ => ⟨H, [], rfl, Ext.refl H, [], rfl, by simp, by simp⟩
+  | (key, x) :: kvs, H, ts, hm, hp => by
+    obtain ⟨t, ts', hx, hr, rfl⟩ := mapOptKv_cons_some.1 hm
+    simp only [T.pureKvs, Bool.and_eq_true] at hp
+    obtain ⟨H1, y, hc1, e1, S1, ho1, hn1, hg1⟩ := ih opt' H x t hx hp.1
+    have hr1 : mapOptKv (denote n H1) kvs = some ts' :=
+      mapOptKv_mono (fun x y _ h => denote_ext e1 n x y h) hr
+    obtain ⟨H2, ys, hc2, e2, Ss, ho2, hn2, hg2⟩ := forEachKv_fresh ih opt opt' om kvs H1 ts' hr1 hp.2
+    by_cases hom : om H1 y = true
+    · -- the member is left out: its cells stay behind, unreferenced
+      exact ⟨H2, ys, by simp [forEachKv, hc1, hc2, hom], e1.trans e2, Ss, ho2, hn2,
+        fun a ha => Nat.le_trans e1.len (hg2 a ha)⟩
+    · refine ⟨H2, (key, y) :: ys, by simp [forEachKv, hc1, hc2, hom], e1.trans e2, S1 :: Ss, ?_, ?_, ?_⟩
+      · exact mapOpt_cons_some.2 ⟨_, _, owns_ext e2 n y _ ho1, ho2, rfl⟩
+      · rw [List.flatten_cons, List.nodup_append]
+        refine ⟨hn1, hn2, fun a ha b hb hab => ?_⟩
+        have h1 : a < H1.length := owns_lt n H1 y S1 ho1 a ha
+        have h2 : H1.length ≤ b := hg2 b hb
+        subst hab
+        exact Nat.lt_irrefl _ (Nat.lt_of_lt_of_le h1 h2)
+      · intro a ha
+        rw [List.flatten_cons, List.mem_append] at ha
+        rcases ha with ha | ha
+        · exact hg1 a ha
+        · exact Nat.le_trans e1.len (hg2 a ha)
+
+theorem fresh_scalar {k : Kind} {n : Nat} {opt : Opt} {H : Heap} {r : Ref} {t : T}
+    (hs : denoteScalar r = some t) (hp : t.pure k.src = true) :
+    ∃ H' r', conv k n opt H r = some (H', r') ∧ Ext H H' ∧
+      ∃ S, owns n H' r' = some S ∧ S.Nodup ∧ ∀ a, a ∈ S → H.length ≤ a := by
+  obtain ⟨H', r', hc, e, _, S, h⟩ := copy_scalar (k := k) (n := n) (opt := opt) (H := H) hs hp
+  exact ⟨H', r', hc, e, S, h⟩
+
+theorem fresh_spec (k : Kind) (hk : k.inPlace = false) : ∀ n, FreshSpec k n
+  | 0 => by
+    intro opt H r t hd hp
+    exact fresh_scalar (by simpa [denote] using hd) hp
+  | n + 1 => by
+    have ih := fresh_spec k hk n
+    intro opt H r t hd hp
+    cases r with
+    | nilArr f =>
+      simp only [denote, Option.some.injEq] at hd; subst hd
+      simp only [T.pure, Bool.and_eq_true, decide_eq_true_eq] at hp
+      obtain ⟨hf, _⟩ := hp
+      cases k <;> simp [Kind.inPlace] at hk
+      case generify =>
+        exact ⟨H ++ [.arr []], .arr Kind.generify.dst H.length, by simp [conv, hf, nilContainer],
+          Ext.append H _, [H.length], owns_arr_some.2 ⟨[], [], get_append_new H _, rfl, by simp⟩,
+          by simp, by simp⟩
+      case decompose =>
+        exact ⟨H ++ [.arr []], .arr Kind.decompose.dst H.length, by simp [conv, hf, nilContainer],
+          Ext.append H _, [H.length], owns_arr_some.2 ⟨[], [], get_append_new H _, rfl, by simp⟩,
+          by simp, by simp⟩
+      case simplify =>
+        exact ⟨H, .nilArr Kind.simplify.dst, by simp [conv, hf, nilContainer], Ext.refl H,
+          [], by simp [owns], by simp, by simp⟩
+      case genDup =>
+        exact ⟨H, .nilArr Kind.genDup.dst, by simp [conv, hf, nilContainer], Ext.refl H,
+          [], by simp [owns], by simp, by simp⟩
+    | nilObj f =>
+      simp only [denote, Option.some.injEq] at hd; subst hd
+      simp only [T.pure, Bool.and_eq_true, decide_eq_true_eq] at hp
+      obtain ⟨hf, _⟩ := hp
+      cases k <;> simp [Kind.inPlace] at hk
+      case generify =>
+        exact ⟨H ++ [.obj []], .obj Kind.generify.dst H.length, by simp [conv, hf, nilContainer],
+          Ext.append H _, [H.length], owns_obj_some.2 ⟨[], [], get_append_new H _, rfl, by simp⟩,
+          by simp, by simp⟩
+      case decompose =>
+        exact ⟨H ++ [.obj []], .obj Kind.decompose.dst H.length, by simp [conv, hf, nilContainer],
+          Ext.append H _, [H.length], owns_obj_some.2 ⟨[], [], get_append_new H _, rfl, by simp⟩,
+          by simp, by simp⟩
+      case simplify =>
+        exact ⟨H, .nilObj Kind.simplify.dst, by simp [conv, hf, nilContainer], Ext.refl H,
+          [], by simp [owns], by simp, by simp⟩
+      case genDup =>
+        exact ⟨H, .nilObj Kind.genDup.dst, by simp [conv, hf, nilContainer], Ext.refl H,
+          [], by simp [owns], by simp, by simp⟩
+    | arr f a =>
+      obtain ⟨xs, ts, hc, hm, rfl⟩ := denote_arr_some.1 hd
+      simp only [T.pure, Bool.and_eq_true, decide_eq_true_eq] at hp
+      obtain ⟨hf, hpl⟩ := hp
+      obtain ⟨H1, ys, hfe, e1, Ss, ho1, hn1, hg1⟩ := forEach_fresh ih (k.arrOpt opt) xs H ts hm hpl
+      have ea := Ext.append H1 [Cell.arr ys]
+      refine ⟨H1 ++ [.arr ys], .arr k.dst H1.length, ?_, e1.trans ea, H1.length :: Ss.flatten, ?_, ?_, ?_⟩
+      · simp [conv, hf, hc, hfe, commit_copy hk]
+      · exact owns_arr_some.2 ⟨ys, Ss, get_append_new H1 _,
+          mapOpt_mono (fun x y _ h => owns_ext ea n x y h) ho1, rfl⟩
+      · refine List.nodup_cons.2 ⟨fun hin => ?_, hn1⟩
+        exact Nat.lt_irrefl _ (owns_list_lt ho1 _ hin)
+      · intro b hb
+        rcases List.mem_cons.1 hb with rfl | hb'
+        · exact e1.len
+        · exact hg1 b hb'
+    | obj f a =>
+      obtain ⟨kvs, ts, hc, hm, rfl⟩ := denote_obj_some.1 hd
+      simp only [T.pure, Bool.and_eq_true, decide_eq_true_eq] at hp
+      obtain ⟨hf, hpl⟩ := hp
+      obtain ⟨H1, ys, hfe, e1, Ss, ho1, hn1, hg1⟩ :=
+        forEachKv_fresh ih opt (k.mapOpt opt) (omits k opt) kvs H ts hm hpl
+      have ea := Ext.append H1 [Cell.obj ys]
+      refine ⟨H1 ++ [.obj ys], .obj k.dst H1.length, ?_, e1.trans ea, H1.length :: Ss.flatten, ?_, ?_, ?_⟩
+      · simp [conv, hf, hc, hfe, commit_copy hk]
+      · exact owns_obj_some.2 ⟨ys, Ss, get_append_new H1 _,
+          mapOpt_mono (fun x y _ h => owns_ext ea n x y h) ho1, rfl⟩
+      · refine List.nodup_cons.2 ⟨fun hin => ?_, hn1⟩
+        exact Nat.lt_irrefl _ (owns_list_lt ho1 _ hin)
+      · intro b hb
+        rcases List.mem_cons.1 hb with rfl | hb'
+        · exact e1.len
+        · exact hg1 b hb'
+    | null => exact fresh_scalar (by simpa [denote] using hd) hp
+    | bool f b => exact fresh_scalar (by simpa [denote] using hd) hp
+    | int f i => exact fresh_scalar (by simpa [denote] using hd) hp
+    | flt f x => exact fresh_scalar (by simpa [denote] using hd) hp
+    | str f s => exact fresh_scalar (by simpa [denote] using hd) hp
+    | big f s => exact fresh_scalar (by simpa [denote] using hd) hp
+
 /-! ## in-place variants -/
 
 theorem addr_none_of_scalar {r : Ref} {t : T} (h : denoteScalar r = some t) : r.addr? = none := by
